@@ -24,8 +24,18 @@ import time
 import traceback
 
 VERIF = os.path.dirname(os.path.dirname(os.path.abspath(__file__)))
-COQ = os.path.join(VERIF, "coq")
 REPO = os.environ.get("VERIF_REPO", "/repo")
+COQ = os.path.join(VERIF, "coq")
+if REPO != "/repo":
+    # A scratch copy of the repository (seeded change, refactoring, fix under development) gets its OWN copy of the Coq
+    # tree: the translators rewrite coq/Gen/*.v from the sources under check, and runs against different source trees
+    # must not overwrite each other's generated files or compiled proofs.  The registered commands always use /repo
+    # and /verif/coq itself.
+    _tag = hashlib.sha1(os.path.abspath(REPO).encode()).hexdigest()[:10]
+    _scratch = os.path.join("/tmp", "vcoq-" + _tag)
+    subprocess.run(["rsync", "-a", "--delete", "--exclude", "Cases", "--exclude", ".depend*",
+                    COQ + "/", _scratch + "/"], check=False)
+    COQ = _scratch
 SRC = os.path.join(REPO, "src")
 PKG = os.path.join(SRC, "qutip_qip")
 NCPU = int(os.environ.get("VERIF_JOBS", "16"))
@@ -173,8 +183,21 @@ def coq_eval(name, body, timeout=600):
     p = subprocess.run(
         ["timeout", str(timeout), "coqc", "-Q", COQ, "QV", path],
         capture_output=True, text=True, cwd=d)
+    for ext in (".vo", ".vok", ".vos", ".glob", ".aux"):
+        try:
+            os.remove(path[:-2] + ext)
+        except FileNotFoundError:
+            pass
+    try:
+        os.remove(os.path.join(d, "." + name + ".aux"))
+    except FileNotFoundError:
+        pass
     if p.returncode != 0:
         raise Broken(f"coq-eval:{name}", (p.stdout + p.stderr)[-3000:])
+    try:
+        os.remove(path)  # keep the case file only when it failed
+    except FileNotFoundError:
+        pass
     return p.stdout
 
 
